@@ -77,17 +77,38 @@ theorem rejects_empty (s : RangeSpec) (start stop size : Int)
   unfold mkRange
   rw [hn]
   simp only
-  by_cases hneg : start < 0 ∨ stop < 0
+  by_cases hneg : start < 0 ∨ stop < 0 ∨ s.base.getD 0 < 0
   · exact ⟨_, by rw [if_pos hneg]⟩
   · rw [if_neg hneg, if_pos (by omega : start ≥ stop)]; exact ⟨_, rfl⟩
 
-/-- negative bounds are rejected -/
+/-- negative bounds are rejected, and so is a negative base (a range built on it may itself be non-negative —
+    `{base: -4096, size: 4096, idx: 1}` is `[0, 4096)` — but its element 0 is not) -/
 theorem rejects_negative (s : RangeSpec) (start stop size : Int)
-    (hn : normalise s = .ok (start, stop, size)) (hneg : start < 0 ∨ stop < 0) :
+    (hn : normalise s = .ok (start, stop, size)) (hneg : start < 0 ∨ stop < 0 ∨ s.base.getD 0 < 0) :
     mkRange s = .error .negative := by
   unfold mkRange
   rw [hn]
-  simp [hneg]
+  simp only
+  rw [if_pos hneg]
+
+/-- the base an accepted range carries is not negative: re-indexing it to any element k ≥ 0 stays in the
+    address space's non-negative half -/
+theorem mkRange_base_nonneg (s : RangeSpec) (r : AddrRange) (h : mkRange s = .ok r) (b : Int)
+    (hb : r.base = some b) : 0 ≤ b := by
+  unfold mkRange at h
+  split at h
+  · cases h
+  · rename_i start stop size hn
+    split at h
+    · cases h
+    · rename_i hneg
+      split at h
+      · cases h
+      · cases h
+        simp only at hb
+        rw [hb] at hneg
+        simp only [Option.getD_some] at hneg
+        omega
 
 /-- a specification that names neither (base,size) nor two of start/end/size is rejected -/
 theorem rejects_underspecified (s : RangeSpec)
